@@ -230,6 +230,7 @@ class Contract:
         yield_range=None,
         time_budget=None,
         prune_timeout_ms=None,
+        tier="quick",
     ):
         self.id = cid
         self.target = target
@@ -260,6 +261,7 @@ class Contract:
         self.yield_range = yield_range
         self.time_budget = time_budget
         self.prune_timeout_ms = prune_timeout_ms
+        self.tier = tier  # 'thorough': only explored in the thorough tier
 
 
 class Lemma:
